@@ -186,7 +186,10 @@ def rule_C09_gates(ctx, rule="C09-gate"):
             gs = st.guards()
             b0, bb0 = st.chain[0]
             # heap-only: neither the site nor the call leading to it is executed for an inline/static receiver
-            heap_only = all((b.path, site_name(b, bb)) not in reached for b, bb in st.chain if b.j["kind"] != "closure") and any(
+            # (a function with no string receiver - a constructor - is not "heap only": it runs for every size)
+            import proto
+            has_recv = any(bt in ("LeanString", "repr::Repr") for _, bt in proto.tracked_params(b0))
+            heap_only = has_recv and all((b.path, site_name(b, bb)) not in reached for b, bb in st.chain if b.j["kind"] != "closure") and any(
                 b.path.startswith("repr::Repr::") or b.path.startswith("LeanString::") for b, _ in st.chain)
             under_heap = heap_only or any(g[0] == "pred" and g[1] == "repr::Repr::is_heap_buffer" and g[3] is True and g[2] == "p1" for g in gs)
             thr = [g for g in gs if g[0] == "cmp" and g[2] is not None and g[3] is None]
@@ -213,7 +216,8 @@ def rule_C09_no_other_alloc(ctx, rule="C09-onlygate"):
     F, cg = ctx.F, ctx.cg
     n = 0
     for path, b in F.bodies.items():
-        isf = ctx.F.fns.get(path, {}).get("impl_self") or ""
+        import re as _re
+        isf = ctx.F.fns.get(_re.sub(r"(::\{closure#\d+\})+$", "", path), {}).get("impl_self") or ""   # (a closure belongs to the impl of the function it is written in)
         if path.startswith(HEAP_MOD) or isf == "alloc::string::String" or (isf and isf.split("<")[0] not in F.adts and isf.split("<")[0].split("::")[0] in ("alloc", "std", "core")):
             # impls *for String* (From<LeanString> for String, Extend<LeanString> for String)
             # produce a std String: outside every LeanString property
